@@ -4,13 +4,20 @@
 From ASV Require Import Base.
 From ASV.C18 Require Import Model Proofs.
 
-(* the cpus == 1 shortcut (cpus given, or defaulted from the configuration) is the sequential run,
-   whatever the timeout and the schedule *)
-Theorem C18_cpus1 : forall (A B : Type) (f : A -> res B) cfg cpus timeout sched (args : list A),
+(* the `cpus == 1 and timeout is None` shortcut (cpus given, or defaulted from the configuration; no timeout
+   asked for) is the sequential run, whatever the schedule *)
+Theorem C18_cpus1 : forall (A B : Type) (f : A -> res B) cfg cpus sched (args : list A),
   effective_cpus cfg cpus = 1 ->
-  parallel_function f cfg cpus timeout sched args = sequential f args.
+  parallel_function f cfg cpus None sched args = sequential f args.
 Proof. exact @cpus1_is_map. Qed.
 Print Assumptions C18_cpus1.
+
+(* ... and with a timeout there is no shortcut for any worker count: one worker means a pool of one worker, the
+   same dispatcher as parallel_execute (repair of finding C18-K2) *)
+Theorem C18_function_with_timeout_is_pool : forall (A B : Type) (f : A -> res B) cfg cpus t sched (args : list A),
+  parallel_function f cfg cpus (Some t) sched args = parallel_execute f cfg cpus (Some t) sched args.
+Proof. exact @function_timeout_is_pool. Qed.
+Print Assumptions C18_function_with_timeout_is_pool.
 
 (* for every worker count, every batch, every timeout and EVERY schedule (any completion order, worker
    deaths included): a list returned by parallel_function is the list of the sequential run *)
@@ -34,13 +41,14 @@ Theorem C18_failure_surfaces : forall (A B : Type) (f : A -> res B) cfg cpus tim
 Proof. exact @failure_surfaces. Qed.
 Print Assumptions C18_failure_surfaces.
 
-(* which error: an invalid worker count (ValueError), the timeout (RuntimeError, only if a timeout was given
-   and the pool is used), a get() that never returns (only with the pool), or the exception of one of the calls *)
+(* which error: an invalid worker count (ValueError), the timeout (RuntimeError, only if a timeout was given - for
+   any worker count), a get() that never returns (only with the pool: more than one worker, or a timeout), or the
+   exception of one of the calls *)
 Theorem C18_failure_kind : forall (A B : Type) (f : A -> res B) cfg cpus timeout sched (args : list A) e,
   parallel_function f cfg cpus timeout sched args = Err e ->
   (e = E_Value /\ effective_cpus cfg cpus < 1) \/
-  (e = E_Runtime /\ timeout <> None /\ effective_cpus cfg cpus <> 1) \/
-  (e = E_Fuel /\ effective_cpus cfg cpus <> 1) \/
+  (e = E_Runtime /\ timeout <> None) \/
+  (e = E_Fuel /\ (effective_cpus cfg cpus <> 1 \/ timeout <> None)) \/
   exists a, In a args /\ f a = Err e.
 Proof. exact @failure_kind. Qed.
 Print Assumptions C18_failure_kind.
@@ -231,32 +239,44 @@ Theorem C18_execute_timeout_kind : forall (A B : Type) (f : A -> res B) slow cfg
 Proof. exact @execute_timeout_kind. Qed.
 Print Assumptions C18_execute_timeout_kind.
 
-(* parallel_function: the same clause wherever the pool is used; partial, because with one worker it is false
-   (next theorem) *)
-Theorem C18_function_timeout_surfaces_partial :
+(* parallel_function: the same clause for EVERY worker count, one worker included (no guard; before the repair of
+   finding C18-K2 this needed `effective_cpus cfg cpus <> 1`) *)
+Theorem C18_function_timeout_surfaces :
   forall (A B : Type) (f : A -> res B) slow cfg cpus t sched (args : list A),
-  effective_cpus cfg cpus <> 1 ->
   respects_durations f slow (effective_cpus cfg cpus) (Some t) sched args = true -> existsb slow args = true ->
   exists e, parallel_function f cfg cpus (Some t) sched args = Err e.
-Proof. exact @function_timeout_surfaces_partial. Qed.
-Print Assumptions C18_function_timeout_surfaces_partial.
+Proof. exact @function_timeout_surfaces. Qed.
+Print Assumptions C18_function_timeout_surfaces.
 
-(* finding C18-K2: the full statement is false for parallel_function with one worker - the shortcut never looks
-   at the timeout: a batch whose second call exceeds the timeout comes back as a list (whatever the schedule),
-   while the specification, and the same batch with two workers, give the timeout error *)
-Theorem C18_function_timeout_surfaces_cpus1_refuted :
-  exists (t : Z) (jobs : list (bool * res Z)) vs,
-    existsb fst jobs = true /\
-    dispatch_spec snd fst (Some t) jobs = Err E_Runtime /\
-    (forall sched, parallel_function snd 2 1 (Some t) sched jobs = Ok vs) /\
-    parallel_function snd 2 2 (Some t) [Start 0; Start 1; Finish 0; Tick] jobs = Err E_Runtime /\
-    timely snd fst 2 (Some t) [Start 0; Start 1; Finish 0; Tick] jobs = true.
+Theorem C18_function_timeout_kind : forall (A B : Type) (f : A -> res B) slow cfg cpus t sched (args : list A) rs,
+  1 <= effective_cpus cfg cpus ->
+  respects_durations f slow (effective_cpus cfg cpus) (Some t) sched args = true -> existsb slow args = true ->
+  sequential f args = Ok rs ->
+  parallel_function f cfg cpus (Some t) sched args = Err E_Runtime \/
+  parallel_function f cfg cpus (Some t) sched args = Err E_Fuel.
+Proof. exact @function_timeout_kind. Qed.
+Print Assumptions C18_function_timeout_kind.
+
+(* the class of the repaired finding C18-K2, stated positively: ONE effective worker (given, or through the
+   configuration), a call exceeding the timeout, no call raising - under every schedule of the one-worker pool in
+   which the slow chunk does not report early the outcome is the timeout's RuntimeError (or the schedule ends before
+   get() returns); never the list that used to come back *)
+Theorem C18_function_timeout_surfaces_cpus1 :
+  forall (A B : Type) (f : A -> res B) slow cfg cpus t sched (args : list A) rs,
+  effective_cpus cfg cpus = 1 ->
+  respects_durations f slow 1 (Some t) sched args = true -> existsb slow args = true ->
+  sequential f args = Ok rs ->
+  (parallel_function f cfg cpus (Some t) sched args = Err E_Runtime \/
+   parallel_function f cfg cpus (Some t) sched args = Err E_Fuel) /\
+  parallel_function f cfg cpus (Some t) sched args <> Ok rs.
 Proof.
-  exists 1, [(false, Ok 10); (true, Ok 11)], [10; 11].
-  split; [reflexivity|]. split; [reflexivity|]. split; [intros sched; reflexivity|].
-  split; vm_compute; reflexivity.
+  intros A B f slow cfg cpus t sched args rs H1 Hr Hs Hseq.
+  assert (Hc : 1 <= effective_cpus cfg cpus) by (rewrite H1; apply Z.le_refl).
+  rewrite <- H1 in Hr.
+  destruct (function_timeout_kind f slow cfg cpus t sched args rs Hc Hr Hs Hseq) as [H|H];
+    (split; [|rewrite H; discriminate]); [left|right]; exact H.
 Qed.
-Print Assumptions C18_function_timeout_surfaces_cpus1_refuted.
+Print Assumptions C18_function_timeout_surfaces_cpus1.
 
 (* for every worker count >= 1, every usable timeout and every timely schedule: the outcome of parallel_execute
    IS the dispatcher's sequential specification (same list; or an error on both sides), unless the schedule
@@ -270,16 +290,15 @@ Theorem C18_execute_equals_dispatch_spec :
 Proof. exact @execute_equals_dispatch_spec. Qed.
 Print Assumptions C18_execute_equals_dispatch_spec.
 
-(* parallel_function: the same, guarded: more than one worker, or no call exceeding the timeout *)
-Theorem C18_function_equals_dispatch_spec_partial :
+(* parallel_function: the same, for every worker count >= 1 (no guard any more) *)
+Theorem C18_function_equals_dispatch_spec :
   forall (A B : Type) (f : A -> res B) slow cfg cpus timeout sched (args : list A),
   1 <= effective_cpus cfg cpus -> timeout_pos timeout = true ->
   timely f slow (effective_cpus cfg cpus) timeout sched args = true ->
-  effective_cpus cfg cpus <> 1 \/ any_exceeds slow timeout args = false ->
   parallel_function f cfg cpus timeout sched args = Err E_Fuel \/
   same_outcome (parallel_function f cfg cpus timeout sched args) (dispatch_spec f slow timeout args).
-Proof. exact @function_equals_dispatch_spec_partial. Qed.
-Print Assumptions C18_function_equals_dispatch_spec_partial.
+Proof. exact @function_equals_dispatch_spec. Qed.
+Print Assumptions C18_function_equals_dispatch_spec.
 
 (* hence the outcome does not depend on the worker count: any two worker counts, each with its own timely
    schedule, give the same list or both an error *)
@@ -294,6 +313,18 @@ Theorem C18_execute_workers_irrelevant :
 Proof. exact @execute_workers_irrelevant. Qed.
 Print Assumptions C18_execute_workers_irrelevant.
 
+(* ... and the same for parallel_function, one worker included *)
+Theorem C18_function_workers_irrelevant :
+  forall (A B : Type) (f : A -> res B) slow cfg1 cpus1 cfg2 cpus2 timeout sched1 sched2 (args : list A),
+  1 <= effective_cpus cfg1 cpus1 -> 1 <= effective_cpus cfg2 cpus2 -> timeout_pos timeout = true ->
+  timely f slow (effective_cpus cfg1 cpus1) timeout sched1 args = true ->
+  timely f slow (effective_cpus cfg2 cpus2) timeout sched2 args = true ->
+  parallel_function f cfg1 cpus1 timeout sched1 args <> Err E_Fuel ->
+  parallel_function f cfg2 cpus2 timeout sched2 args <> Err E_Fuel ->
+  same_outcome (parallel_function f cfg1 cpus1 timeout sched1 args) (parallel_function f cfg2 cpus2 timeout sched2 args).
+Proof. exact @function_workers_irrelevant. Qed.
+Print Assumptions C18_function_workers_irrelevant.
+
 (* not vacuous, for every worker count >= 1 and every timeout >= 1: a batch without slow calls whose calls all
    return has a timely schedule under which it comes back in spite of the timeout *)
 Theorem C18_timely_completing_schedule_exists :
@@ -307,7 +338,7 @@ Print Assumptions C18_timely_completing_schedule_exists.
 (* the decidable specification with duration classes, evaluated on every implementation output of
    parallel_function / parallel_execute at run time (jobs = (duration class, sequential outcome)): an accepted
    output is the outcome of dispatch_spec; an accepted list means no job exceeds the timeout and is the
-   sequential list; the model meets it under timely schedules (parallel_function: outside finding C18-K2);
+   sequential list; the model meets it under timely schedules (both helpers, every worker count);
    it is at least as strict as spec_ok *)
 Theorem C18_timed_spec_ok_sound : forall cfg cpus timeout (jobs : list (bool * res Z)) out,
   1 <= effective_cpus cfg cpus -> tspec_ok cfg cpus timeout jobs out = true ->
@@ -329,14 +360,13 @@ Theorem C18_execute_meets_timed_spec : forall cfg cpus timeout sched (jobs : lis
 Proof. exact execute_meets_tspec. Qed.
 Print Assumptions C18_execute_meets_timed_spec.
 
-Theorem C18_function_meets_timed_spec_partial : forall cfg cpus timeout sched (jobs : list (bool * res Z)),
+Theorem C18_function_meets_timed_spec : forall cfg cpus timeout sched (jobs : list (bool * res Z)),
   timeout_pos timeout = true ->
   timely snd fst (effective_cpus cfg cpus) timeout sched jobs = true ->
-  finding_K2 cfg cpus timeout jobs = false ->
   parallel_function snd cfg cpus timeout sched jobs <> Err E_Fuel ->
   tspec_ok cfg cpus timeout jobs (parallel_function snd cfg cpus timeout sched jobs) = true.
-Proof. exact function_meets_tspec_partial. Qed.
-Print Assumptions C18_function_meets_timed_spec_partial.
+Proof. exact function_meets_tspec. Qed.
+Print Assumptions C18_function_meets_timed_spec.
 
 Theorem C18_timed_spec_refines_spec : forall cfg cpus timeout (jobs : list (bool * res Z)) out,
   tspec_ok cfg cpus timeout jobs out = true -> spec_ok cfg cpus timeout (map snd jobs) out = true.
@@ -371,10 +401,14 @@ Example C18_ex_timeout :
             (init_state Z (make_chunks 2 [Ok 1; Ok 2])) = false.
 Proof. vm_compute. repeat split; reflexivity. Qed.
 
-(* the worker count defaults to the configuration; an invalid count is a ValueError *)
+(* the worker count defaults to the configuration; one worker without a timeout runs in-process (no schedule
+   needed), with a timeout - 0 included - it is a pool: timeout 0 expires before anything can be ready; an invalid
+   count is a ValueError *)
 Example C18_ex_cpus :
   effective_cpus 1 0 = 1 /\
-  parallel_function (fun t => t) 1 0 (Some 0) [] [Ok 1; Ok 2] = Ok [1; 2] /\
+  parallel_function (fun t => t) 1 0 None [] [Ok 1; Ok 2] = Ok [1; 2] /\
+  parallel_function (fun t => t) 1 0 (Some 0) [] [Ok 1; Ok 2] = Err E_Runtime /\
+  parallel_function (fun t => t) 1 0 (Some 5) [Start 0; Finish 0; Start 0; Finish 0] [Ok 1; Ok 2] = Ok [1; 2] /\
   parallel_function (fun t => t) (-2) 0 None [] [Ok 1] = Err E_Value.
 Proof. vm_compute. repeat split; reflexivity. Qed.
 
@@ -391,9 +425,11 @@ Example C18_ex_preprocess :
   gf_keeps (fun r => Ok r).
 Proof. split; [vm_compute; reflexivity|]. split; [vm_compute; reflexivity|]. intros r r' H. inversion H. reflexivity. Qed.
 
-(* the timeout clause with ONE worker in the pool (parallel_execute has no shortcut) and with three: jobs 0 and 2
-   are negligible, job 1 exceeds the timeout of 2 ticks.  The schedules are timely; the outcome is the timeout
-   error, as dispatch_spec says; the decidable specification accepts it and rejects the list *)
+(* the timeout clause with ONE worker in the pool and with three, for both helpers: jobs 0 and 2 are negligible,
+   job 1 exceeds the timeout of 2 ticks.  The schedules are timely; the outcome is the timeout error, as
+   dispatch_spec says; the decidable specification accepts it and rejects the list; parallel_function with one
+   worker (given directly, or through the configuration) gives the same error as with three - the witness of the
+   repaired finding C18-K2 - and without a timeout the list, in-process *)
 Example C18_ex_timeout_one_worker :
   let jobs := [(false, Ok 10); (true, Ok 11); (false, Ok 12)] in
   let s1 := [Start 0; Finish 0; Start 0; Tick; Tick; Finish 0; Start 0; Finish 0] in
@@ -404,5 +440,7 @@ Example C18_ex_timeout_one_worker :
   dispatch_spec snd fst (Some 2) jobs = Err E_Runtime /\
   parallel_execute snd 2 1 None s1 jobs = Ok [10; 11; 12] /\
   tspec_ok 2 1 (Some 2) jobs (Err E_Runtime) = true /\ tspec_ok 2 1 (Some 2) jobs (Ok [10; 11; 12]) = false /\
-  finding_K2 2 1 (Some 2) jobs = true /\ finding_K2 2 3 (Some 2) jobs = false.
+  parallel_function snd 2 1 (Some 2) s1 jobs = Err E_Runtime /\ parallel_function snd 1 0 (Some 2) s1 jobs = Err E_Runtime /\
+  parallel_function snd 2 3 (Some 2) s3 jobs = Err E_Runtime /\ parallel_function snd 2 1 None [] jobs = Ok [10; 11; 12] /\
+  finding_K2 2 1 (Some 2) jobs = false.
 Proof. vm_compute. repeat split; reflexivity. Qed.
